@@ -4,8 +4,10 @@
 package chain
 
 import (
+	"bufio"
 	"errors"
 	"fmt"
+	"net"
 	"net/http"
 	"sort"
 	"strings"
@@ -91,6 +93,22 @@ func (w *RecWriter) Write(b []byte) (int, error) {
 
 func (w *RecWriter) Flush() { w.Calls = append(w.Calls, Call{Kind: "Flush"}) }
 
+// Hijack records the take-over of the connection (there is no real connection behind a recording writer).
+func (w *RecWriter) Hijack() (net.Conn, *bufio.ReadWriter, error) {
+	w.Calls = append(w.Calls, Call{Kind: "Hijack"})
+	return nil, nil, nil
+}
+
+// Hijacked reports whether the connection was taken over.
+func (w *RecWriter) Hijacked() bool {
+	for _, c := range w.Calls {
+		if c.Kind == "Hijack" {
+			return true
+		}
+	}
+	return false
+}
+
 // Log renders the call log.
 func (w *RecWriter) Log() string {
 	ss := make([]string, len(w.Calls))
@@ -137,6 +155,9 @@ func (w *RecWriter) EffectiveStatus() int {
 // CheckCommit is the validity predicate of C08 on the raw call log: exactly
 // one WriteHeader call and nothing before it.
 func (w *RecWriter) CheckCommit() error {
+	if w.Hijacked() {
+		return nil // the handler owns the connection: the header is its business
+	}
 	n := len(w.HeaderCommits())
 	if n != 1 {
 		return fmt.Errorf("underlying writer received %d WriteHeader calls, want exactly 1: %s", n, w.Log())
@@ -187,6 +208,12 @@ func (w *ModelWriter) Write(b []byte) (int, error) {
 func (w *ModelWriter) Flush() {
 	w.Commit()
 	w.U.Flush()
+}
+
+// Hijack hands the connection to the handler: if the header was not committed yet it never will be by the router.
+func (w *ModelWriter) Hijack() (net.Conn, *bufio.ReadWriter, error) {
+	w.committed = true
+	return w.U.Hijack()
 }
 
 // Length is the number of body bytes accepted so far.
